@@ -47,6 +47,9 @@ EXPECTED_PROBES = ["ops_after_first_hash", "twin_pairs", "near_miss_pairs", "typ
                    "copies_after_hash", "user_class_objects", "legacy_objects", "deprecated_spellings",
                    "preemptions_taken", "runs_with_preemption_inside_eq_or_hash"]
 BUDGET_SCALE = {"quick": 1.0, "thorough": 1.0}
+# a share of every batch runs the interpreter with -O (frozen=__debug__ is off, asserts are
+# stripped): everything except the rebinding clause must still hold there
+BATCHES = [{"share": 0.85}, {"share": 0.15, "pyflags": ["-O"], "tier_suffix": "-O"}]
 
 USER_FIELD_NAMES = ["f0", "f1", "f2", "g0", "g1"]
 
